@@ -208,6 +208,12 @@ def run(chk):
                                     lost = sc.intact()
                                     if lost:
                                         follow = " followed by %s by %s (%d %s)" % (n2, "usr", r2.status, r2.code); break
+                                if name == "delete-policy" and not lost:
+                                    # without any bucket policy nobody holds s3:BypassGovernanceRetention: the header alone must not let even root shorten a retention
+                                    r3 = dict(attacks(sc, True))["retention-shorten"](clients["root"])
+                                    weak = sc.weakened(False)
+                                    if weak:
+                                        follow = " followed by retention-shorten with the bypass header by root (%d %s)" % (r3.status, r3.code)
                             row = {"protection": pr, "bucket": kind, "caller": caller, "bypass_header": bypass_hdr, "request": name, "status": r.status, "code": r.code, "lost": lost, "weakened": weak}
                             rows.append(row)
                             chk.case((pr, kind, caller, bypass_hdr, name), True)
@@ -225,6 +231,42 @@ def run(chk):
                             if sc.lock_state() != sc.state0 or name in ("lock-config-disable", "lock-config-no-rule", "lock-config-governance-rule", "delete-policy", "delete-bucket"):
                                 sc = None      # the scenario state moved (legitimately): start the next case from a fresh one
             chk.tie("gateway still running (%s)" % kind, g.alive(), g.log_tail())
+    # ---- the sidecar metadata store (attributes are files keyed by object name): requests onto the protected key's PARENT prefix, which
+    # must fail, may not take the lock attributes of the objects below it with them
+    with gw.Site({"iam": True, "meta": "sidecar"}, name="c10s") as site:
+        g = site.gateway(gwbin)
+        R = s3c.Client(g.port, "root", "rootsecret")
+        for acc, role in USERS:
+            R.req("PATCH", "/create-user", body=("<Account><Access>%s</Access><Secret>%s-secret</Secret><Role>%s</Role><UserID>0</UserID><GroupID>0</GroupID></Account>" % (acc, acc, role)).encode())
+        clients = {"root": R}
+        for acc, _ in USERS:
+            clients[acc] = s3c.Client(g.port, acc, acc + "-secret")
+        for pr in ("hold", "compliance", "governance"):
+            n[0] += 1
+            sc = Scenario(chk, R, clients, False, pr, n[0])
+            chk.require(sc.ok, "c10:setup:%s:sidecar" % pr, "setting up a lock bucket with protection %s in the sidecar store failed" % pr)
+            parent = "/%s/%s" % (sc.bk, sc.key.split("/")[0])
+            def cmu_parent(c):
+                r0 = c.req("POST", parent, query={"uploads": ""})
+                if r0.status != 200: return r0
+                uid = r0.xml().findtext("UploadId"); rp = c.req("PUT", parent, query={"partNumber": "1", "uploadId": uid}, body=OTHER)
+                return c.req("POST", parent, query={"uploadId": uid}, body=("<CompleteMultipartUpload><Part><PartNumber>1</PartNumber><ETag>%s</ETag></Part></CompleteMultipartUpload>" % rp.headers.get("etag", "")).encode())
+            for name, fn in (("overwrite-parent-prefix", lambda c: c.req("PUT", parent, body=OTHER)),
+                             ("copy-onto-parent-prefix", lambda c: c.req("PUT", parent, headers={"x-amz-copy-source": "%s/other" % sc.bk})),
+                             ("multipart-complete-onto-parent-prefix", cmu_parent),
+                             ("delete-parent-prefix", lambda c: c.req("DELETE", parent)), ("delete-parent-directory-object", lambda c: c.req("DELETE", parent + "/"))):
+                r = fn(R)
+                st = sc.lock_state(); lost = sc.intact()
+                r2 = clients["usr"].req("DELETE", "/%s/%s" % (sc.bk, sc.key)); lost = lost or sc.intact()
+                chk.case((pr, "sidecar", name), True); chk.traces += 1
+                chk.count("sidecar:%s:%dxx" % (name, r.status // 100 if r.status > 0 else 0))
+                row = {"protection": pr, "store": "sidecar", "request": name, "status": r.status, "code": r.code, "lock_state_before": sc.state0, "lock_state_after": st, "delete_by_user": r2.status}
+                rows.append(row)
+                if lost or st != sc.state0:
+                    chk.fail("c10:sidecar:%s" % name, "sidecar store, protection %s: %s (answered %d %s) left the protected object %s" % (
+                        pr, name, r.status, r.code, lost or "with lock state %s instead of %s" % (st, sc.state0)), row)
+                    break
+        chk.tie("gateway with the sidecar store still running", g.alive(), g.log_tail())
     chk.samples.extend(rows[5:8])
     if built:
         unit_tie(chk)
